@@ -84,6 +84,8 @@ struct Task {
     done: bool,
     prio: u64,
     pub polls: u64,
+    /// step at which the task became runnable (PCT fairness bound)
+    queued_at: u64,
 }
 
 #[derive(PartialEq, Eq, PartialOrd, Ord)]
@@ -146,6 +148,11 @@ pub struct Core {
     pub spawned_by_dds: u64,
     pub net_due: Vec<u64>,
     pub sched_counts: [u64; 4],
+    /// bytes of datagrams handed to the participants since the last worker poll (C06 allocation bound)
+    pub bytes_since_worker_poll: u64,
+    /// (step, heap growth during the worker poll, bytes received since the previous worker poll)
+    pub alloc_excess: Vec<(u64, u64, u64)>,
+    pub max_worker_growth: u64,
 }
 
 thread_local! {
@@ -154,6 +161,7 @@ thread_local! {
 }
 
 pub fn with_core<R>(f: impl FnOnce(&mut Core) -> R) -> R {
+    let _sim = crate::alloc_count::exempt();
     CORE.with(|c| f(c.borrow_mut().as_mut().expect("core not initialised")))
 }
 
@@ -209,6 +217,9 @@ pub fn init(tp: TimePlan, sched: SchedPlan, trace: bool) {
         spawned_by_dds: 0,
         net_due: vec![],
         sched_counts: [0; 4],
+        bytes_since_worker_poll: 0,
+        alloc_excess: vec![],
+        max_worker_growth: 0,
     };
     CORE.with(|c| *c.borrow_mut() = Some(core));
 }
@@ -234,7 +245,8 @@ impl Core {
         let waker = Waker::from(tw.clone());
         // PCT: priorities are random, high; change points push a task below all others
         let prio = 1_000_000 + self.sched_rng.below(1_000_000);
-        self.tasks.push(Task { fut: Some(fut), class, tw, waker, done: false, prio, polls: 0 });
+        let queued_at = self.step;
+        self.tasks.push(Task { fut: Some(fut), class, tw, waker, done: false, prio, polls: 0, queued_at });
         self.run_q.push(id);
         self.fp.u64(0xA1);
         self.fp.u64(id as u64);
@@ -281,6 +293,7 @@ pub fn run(max_step: u64, max_now: u64, mut cond: impl FnMut() -> bool) -> Stop 
             drop(w);
             for id in woken {
                 if !c.tasks[id].done {
+                    c.tasks[id].queued_at = c.step;
                     c.run_q.push(id);
                 }
             }
@@ -393,6 +406,13 @@ impl Core {
                         best = i;
                     }
                 }
+                // bounded bypass: a runnable task is not passed over for more than PCT_FAIR steps (every real
+                // executor is fair in this sense; without it two busy-polling high-priority tasks livelock the run)
+                const PCT_FAIR: u64 = 2000;
+                let oldest = *candidates.iter().min_by_key(|&&i| self.tasks[self.run_q[i]].queued_at).unwrap();
+                if self.step.saturating_sub(self.tasks[self.run_q[oldest]].queued_at) > PCT_FAIR {
+                    best = oldest;
+                }
                 if self.pct_changes.first().is_some_and(|s| *s <= self.step) {
                     self.pct_changes.remove(0);
                     self.pct_low += 1;
@@ -426,7 +446,20 @@ fn poll_task(id: TaskId) {
     });
     let (Some(mut fut), Some(waker)) = (fut, waker) else { return };
     let mut cx = Context::from_waker(&waker);
+    let is_worker = with_core(|c| c.tasks[id].class == Class::Worker);
+    let heap0 = if is_worker { crate::alloc_count::begin() } else { 0 };
     let res = std::panic::catch_unwind(std::panic::AssertUnwindSafe(|| fut.as_mut().poll(&mut cx)));
+    if is_worker {
+        let growth = crate::alloc_count::peak().saturating_sub(heap0).saturating_sub(crate::alloc_count::exempt_bytes()) as u64;
+        with_core(|c| {
+            let bytes = std::mem::take(&mut c.bytes_since_worker_poll);
+            c.max_worker_growth = c.max_worker_growth.max(growth);
+            if growth > (1 << 20) + 256 * bytes {
+                let step = c.step;
+                c.alloc_excess.push((step, growth, bytes));
+            }
+        });
+    }
     let mut drop_later: Option<LocalFut> = None;
     with_core(|c| {
         c.current = None;
